@@ -20,6 +20,12 @@ use std::sync::Mutex;
 struct CachedInfoset {
     reg: RegretInfoset,
     cached: usize,
+    #[cfg(feature = "verif")]
+    verif_kind: u8,
+    #[cfg(feature = "verif")]
+    verif_id: usize,
+    #[cfg(feature = "verif")]
+    verif_pass: u64,
 }
 
 impl CachedInfoset {
@@ -28,13 +34,37 @@ impl CachedInfoset {
         CachedInfoset {
             reg: RegretInfoset::new(num_actions),
             cached: 0,
+            #[cfg(feature = "verif")]
+            verif_kind: u8::MAX,
+            #[cfg(feature = "verif")]
+            verif_id: usize::MAX,
+            #[cfg(feature = "verif")]
+            verif_pass: 0,
         }
     }
 
     /// Sample an action from the current strategy, caches between resets
     fn sample(&mut self) -> usize {
         if self.cached == 0 {
+            #[cfg(feature = "verif")]
+            if let Some(res) = crate::verif::draw(
+                self.verif_kind,
+                self.verif_id,
+                self.verif_pass,
+                &self.reg.strat,
+            ) {
+                self.cached = res + 1;
+                return res;
+            }
             let res = Multinomial::new(&self.reg.strat).sample(&mut thread_rng());
+            #[cfg(feature = "verif")]
+            crate::verif::observe(
+                self.verif_kind,
+                self.verif_id,
+                self.verif_pass,
+                &self.reg.strat,
+                res,
+            );
             self.cached = res + 1;
             res
         } else {
@@ -52,6 +82,10 @@ trait ChanceInfo {
 
 impl ChanceInfo for SampledChance {
     fn next<'a>(&mut self, chance: &'a Chance) -> &'a Node {
+        #[cfg(feature = "verif")]
+        {
+            self.verif_id = chance.infoset;
+        }
         &chance.outcomes[self.sample()]
     }
 
@@ -155,6 +189,10 @@ impl ActiveInfo for CachedInfoset {
     }
 
     fn advance<const FIRST: bool>(&mut self, it: u64, params: &RegretParams) -> f64 {
+        #[cfg(feature = "verif")]
+        {
+            self.verif_pass += 1;
+        }
         self.cached = 0;
         params.regret_match(&mut *self.reg.cum_regret, &mut self.reg.strat);
         params.discount_cum_regret(it, &mut *self.reg.cum_regret);
@@ -168,6 +206,14 @@ impl ActiveInfo for CachedInfoset {
 
 impl ExternalInfo for CachedInfoset {
     fn next<'a>(&mut self, player: &'a Player) -> &'a Node {
+        #[cfg(feature = "verif")]
+        {
+            self.verif_kind = match player.num {
+                PlayerNum::One => crate::verif::KIND_ONE,
+                PlayerNum::Two => crate::verif::KIND_TWO,
+            };
+            self.verif_id = player.infoset;
+        }
         &player.actions[self.sample()]
     }
 
